@@ -134,7 +134,7 @@ class Program:
                     tree = ast.parse(src)
                 except SyntaxError as e:
                     raise AnalysisError(f"{name}: syntax error {e}")
-                self.modules[name] = ModuleInfo(name, tree, src)
+                self.modules[name] = ModuleInfo(name, _normalise(tree), src)
         for m in self.modules.values():
             self._index_module(m)
         for c in self.classes.values():
@@ -343,6 +343,130 @@ def bind_args(fi: FunctionInfo, call: ast.Call, skip_self: bool = True) -> Dict[
 
 
 # ---------------------------------------------------------------------------
+# syntax normalisation applied to every module before anything looks at it: forms without a semantic difference
+# are mapped to one form, so that no rule has to know both
+# ---------------------------------------------------------------------------
+
+class _Normaliser(ast.NodeTransformer):
+    def __init__(self):
+        self.in_func = 0
+
+    def visit_FunctionDef(self, n):
+        self.in_func += 1
+        self.generic_visit(n)
+        self.in_func -= 1
+        n.body = self._strip(n.body)
+        return n
+
+    visit_AsyncFunctionDef = visit_FunctionDef
+
+    def visit_AnnAssign(self, n):
+        # inside functions an annotated assignment is an assignment; a bare annotation is a no-op.
+        # (class- and module-level annotations are kept: dataclass fields / typed constants are read as such)
+        self.generic_visit(n)
+        if not self.in_func:
+            return n
+        if n.value is None:
+            return ast.copy_location(ast.Pass(), n)
+        return ast.copy_location(ast.Assign(targets=[n.target], value=n.value, type_comment=None), n)
+
+
+    # ---- comparisons: only <, <= (never >, >=) ; `not` pushed into a single comparison
+    _FLIP = {ast.Gt: ast.Lt, ast.GtE: ast.LtE}
+    _COMPL = {ast.Lt: ast.GtE, ast.LtE: ast.Gt, ast.Gt: ast.LtE, ast.GtE: ast.Lt, ast.Eq: ast.NotEq, ast.NotEq: ast.Eq,
+              ast.Is: ast.IsNot, ast.IsNot: ast.Is, ast.In: ast.NotIn, ast.NotIn: ast.In}
+
+    def visit_Compare(self, n):
+        self.generic_visit(n)
+        if len(n.ops) == 1 and type(n.ops[0]) in self._FLIP:
+            return ast.copy_location(ast.Compare(left=n.comparators[0], ops=[self._FLIP[type(n.ops[0])]()], comparators=[n.left]), n)
+        return n
+
+    def visit_UnaryOp(self, n):
+        self.generic_visit(n)
+        if isinstance(n.op, ast.Not):
+            x = n.operand
+            if isinstance(x, ast.UnaryOp) and isinstance(x.op, ast.Not):
+                return x.operand
+            if isinstance(x, ast.Compare) and len(x.ops) == 1 and type(x.ops[0]) in self._COMPL:
+                # (NaN is not considered: not (a < b) is taken as a >= b)
+                c = ast.copy_location(ast.Compare(left=x.left, ops=[self._COMPL[type(x.ops[0])]()], comparators=x.comparators), n)
+                return self.visit_Compare(c) if type(c.ops[0]) in self._FLIP else c
+        return n
+
+    # ---- two-way branches: the test is never a negation, a != / is not / not in, or a <= (the branches are swapped instead)
+    def _positive(self, test):
+        """-> (test', swapped?)"""
+        if isinstance(test, ast.UnaryOp) and isinstance(test.op, ast.Not):
+            return test.operand, True
+        if isinstance(test, ast.Compare) and len(test.ops) == 1:
+            op = type(test.ops[0])
+            if op in (ast.NotEq, ast.IsNot, ast.NotIn):
+                return ast.copy_location(ast.Compare(left=test.left, ops=[self._COMPL[op]()], comparators=test.comparators), test), True
+            if op is ast.LtE:  # a <= b  ==  not (b < a)
+                return ast.copy_location(ast.Compare(left=test.comparators[0], ops=[ast.Lt()], comparators=[test.left]), test), True
+        return test, False
+
+    def visit_If(self, n):
+        self.generic_visit(n)
+        n.body = self._strip(n.body)
+        n.orelse = self._strip(n.orelse, allow_empty=True)
+        if n.orelse and not (len(n.orelse) == 1 and isinstance(n.orelse[0], ast.If)) and not (len(n.body) == 1 and isinstance(n.body[0], ast.If) and False):
+            t, sw = self._positive(n.test)
+            if sw:
+                n.test = t
+                n.body, n.orelse = n.orelse, n.body
+        return n
+
+    def visit_IfExp(self, n):
+        self.generic_visit(n)
+        t, sw = self._positive(n.test)
+        if sw:
+            n.test = t
+            n.body, n.orelse = n.orelse, n.body
+        return n
+
+    # ---- statements without an effect on any result: print(...) ; bare string / constant expressions other than docstrings stay
+    @staticmethod
+    def _is_print(s):
+        return isinstance(s, ast.Expr) and isinstance(s.value, ast.Call) and isinstance(s.value.func, ast.Name) and s.value.func.id == "print"
+
+    def _strip(self, body, allow_empty=False):
+        out = [s for s in body if not self._is_print(s)]
+        if not out and body and not allow_empty:
+            out = [ast.copy_location(ast.Pass(), body[0])]
+        return out
+
+    def visit_For(self, n):
+        self.generic_visit(n)
+        n.body = self._strip(n.body)
+        n.orelse = self._strip(n.orelse, allow_empty=True)
+        return n
+
+    visit_While = visit_For
+
+    def visit_With(self, n):
+        self.generic_visit(n)
+        n.body = self._strip(n.body)
+        return n
+
+    def visit_Try(self, n):
+        self.generic_visit(n)
+        n.body = self._strip(n.body)
+        n.orelse = self._strip(n.orelse, allow_empty=True)
+        n.finalbody = self._strip(n.finalbody, allow_empty=True)
+        for h in n.handlers:
+            h.body = self._strip(h.body)
+        return n
+
+
+def _normalise(tree: ast.Module) -> ast.Module:
+    tree = _Normaliser().visit(tree)
+    ast.fix_missing_locations(tree)
+    return tree
+
+
+# ---------------------------------------------------------------------------
 # in-place mutation of module-level containers, directly or through a local alias
 # ---------------------------------------------------------------------------
 
@@ -496,3 +620,17 @@ def param_container_mutations(fi: "FunctionInfo"):
                 and n.func.value.id not in rebound and n.func.attr in MUTATORS:
             out.append((n, n.func.value.id, f".{n.func.attr}()"))
     return out
+
+
+def as_increment(stmt: ast.stmt):
+    """x += v   |   x = x + v   |   x = v + x   ->  (name of x, v) ; anything else -> None  (plain names only)"""
+    if isinstance(stmt, ast.AugAssign) and isinstance(stmt.op, ast.Add) and isinstance(stmt.target, ast.Name):
+        return stmt.target.id, stmt.value
+    if isinstance(stmt, ast.Assign) and len(stmt.targets) == 1 and isinstance(stmt.targets[0], ast.Name) and isinstance(stmt.value, ast.BinOp) and isinstance(stmt.value.op, ast.Add):
+        t = stmt.targets[0].id
+        l, r = stmt.value.left, stmt.value.right
+        if isinstance(l, ast.Name) and l.id == t:
+            return t, r
+        if isinstance(r, ast.Name) and r.id == t:
+            return t, l
+    return None
